@@ -1413,6 +1413,40 @@ func c09Run(r *mon.Run) {
 			proj(c09CorpusProject(lit, crng), "corpus schema with drawn types for the names it mentions")
 		}
 	}
+	// (g) rule combinations, most of them structurally invalid: every pair and triple of 22 rule snippets on
+	// every example kind, as root and as an object member. Which of several applicable complaints is
+	// raised (and which rule it names) must not vary between runs.
+	{
+		rules := []string{`minLength: 1`, `maxLength: 5`, `regex: "a"`, `min: 1`, `max: 5`, `exclusiveMinimum: true`, `exclusiveMaximum: true`, `precision: 2`,
+			`type: "email"`, `type: "uuid"`, `type: "date"`, `type: "string"`, `type: "integer"`, `type: "any"`, `type: "@t"`, `enum: [1, "a"]`, `const: true`,
+			`nullable: true`, `optional: true`, `minItems: 1`, `additionalProperties: true`, `or: ["string", "integer"]`}
+		examples := []string{`"a@b.cc"`, `3`, `1.5`, `true`, `null`, `{}`, `[]`, `@t`}
+		types := []typeDef{{Name: "@t", Text: `"abc"`}}
+		ci := 0
+		emit := func(rs []string) {
+			for _, ex := range examples {
+				if r.Mine(ci) {
+					ann := " // {" + strings.Join(rs, ", ") + "}"
+					proj(&project{Root: ex + ann, Types: types}, "rule combinations (mostly invalid) on a root value")
+					proj(&project{Root: "{\n  \"k\": " + ex + ann + "\n}", Types: types}, "rule combinations (mostly invalid) on an object member")
+				}
+				ci++
+			}
+		}
+		for i := range rules {
+			for j := i + 1; j < len(rules); j++ {
+				emit([]string{rules[i], rules[j]})
+				if r.Thor {
+					emit([]string{rules[j], rules[i]})
+				}
+				for k := j + 1; k < len(rules); k++ {
+					if r.Thor || (i+j+k)%3 == 0 {
+						emit([]string{rules[i], rules[j], rules[k]})
+					}
+				}
+			}
+		}
+	}
 	// (c) generated projects
 	prng := r.Rand("c09-projects")
 	for n := r.Share(r.Pick(1500, 6_000)); n > 0; n-- {
